@@ -48,7 +48,8 @@ OUTSIDE = ["requests needing more than 3 spawns in one adjustment (cut, counted)
 
 def BOUNDS(tier):
     return {"active_children": "0..3", "released_children": "0..1" if tier == "quick" else "0..2",
-            "spawns_per_adjustment": 3, "cycles": 1 if tier == "quick" else 2}
+            "spawns_per_adjustment": 3, "cycles": 1 if tier == "quick" else
+            "1, and 2 with (active children, spawns per adjustment) in {(0,2), (1,2), (2,1)}"}
 
 
 class Kid(RecPool):
@@ -212,9 +213,9 @@ def shrink(ctx, nh, nm):
     _check_aggregates(ctx, w)
 
 
-def cycles(ctx, nh, nm, n):
+def cycles(ctx, nh, nm, n, max_spawn=3):
     """whole run() cycles through the sleep stub, environment actions in between"""
-    w = World(ctx, nh, nm)
+    w = World(ctx, nh, nm, max_spawn=max_spawn)
     p = w.pool
     calls = []
     for name in ("_shrink", "_grow"):
@@ -305,9 +306,9 @@ def tasks(tier, seed):
         out.append(Task(MOD, "cycles", dict(nh=nh, nm=1 if nh < 3 else 0, n=1), weight=8 ** nh,
                         shards=1 if nh < 2 else (4 if nh == 2 else 16)))
     if tier == "thorough":
-        for nh in range(0, 3):
-            out.append(Task(MOD, "cycles", dict(nh=nh, nm=0, n=2), weight=30 ** nh + 10,
-                            shards=1 if nh == 0 else (8 if nh == 1 else 32)))
+        out.append(Task(MOD, "cycles", dict(nh=0, nm=0, n=2, max_spawn=2), weight=50, shards=4))
+        out.append(Task(MOD, "cycles", dict(nh=1, nm=0, n=2, max_spawn=2), weight=500, shards=48))
+        out.append(Task(MOD, "cycles", dict(nh=2, nm=0, n=2, max_spawn=1), weight=900, shards=64))
     out.append(Task(MOD, "bad_factory"))
     for n in range(0, 4):
         out.append(Task(MOD, "init", dict(n=n)))
